@@ -447,10 +447,23 @@ package group
 //@        && same(desc.AuthKeys, keys)
 //@
 //@ func getDescriptionFile[os.FileInfo]
-//@   trusted
-//@   why description.go: os.Stat of the group's file (of the closest existing ancestor's when subgroups are allowed); no effect on program state
+//@   props C19 C18 C12
 //@   modifies nothing
-//@   ensures one: result3 == nil ==> result0 != nil
+//@   dyncall modifies nothing
+//@   invariant loop 1 none: true
+//@   -- C19: every path handed to the file system is the groups directory joined with a CLEANED rooted path (no "..", no empty or "." component)
+//@   assert at call Join confined: len(arg_elem) == 2 && arg_elem[0] == Directory && arg_elem[1] == callresult("Clean", 1) + ".json"
+//@   assert at call Clean rooted: len(arg_path) > 0 && arg_path[0] == '/'
+//@   -- (what the callback - os.Stat - returns: assumed)
+//@   trusts one: result3 == nil ==> result0 != nil
+//@
+//@ func getDescriptionFile[*os.File]
+//@   props C19 C12
+//@   modifies nothing
+//@   dyncall modifies nothing
+//@   invariant loop 1 none: true
+//@   assert at call Join confined: len(arg_elem) == 2 && arg_elem[0] == Directory && arg_elem[1] == callresult("Clean", 1) + ".json"
+//@   assert at call Clean rooted: len(arg_path) > 0 && arg_path[0] == '/'
 //@
 //@ func GetDescriptionTag
 //@   props C18 C12
@@ -633,10 +646,30 @@ package group
 //@     && (p.name != "" ==> (forall k int :: 0 <= k && k < len(permissionsMap[p.name]) ==> r[len(r) - len(permissionsMap[p.name]) + k] == permissionsMap[p.name][k]))
 //@     && (p.name != "" ==> (addstoken(p, desc) ==> r[0] == "token") && (addsrecord(p, desc) ==> r[addstoken(p, desc) ? 1 : 0] == "record"))
 //@
+//@ -- ------------------------------------------------------------------ names that may reach the file system (C19)
+//@ -- a good name: not empty, no backslash, and when written after a slash a canonical rooted path: it does not begin with a slash,
+//@ -- and every component is non-empty and is neither "." nor ".." (so it cannot climb out of, or be absolute in, the directory it is joined to)
+//@ spec goodname(n string) bool = len(n) > 0 && (forall j int :: 0 <= j && j < len(n) ==> n[j] != 92)
+//@     && n[0] != '/' && n[len(n) - 1] != '/'
+//@     && !(n[0] == '.' && (len(n) == 1 || n[1] == '/')) && !(len(n) >= 2 && n[0] == '.' && n[1] == '.' && (len(n) == 2 || n[2] == '/'))
+//@     && (forall i int :: 0 <= i && i < len(n) && n[i] == '/' ==>
+//@            (i + 1 < len(n) ==> n[i + 1] != '/')
+//@         && !(i + 1 < len(n) && n[i + 1] == '.' && (i + 2 == len(n) || n[i + 2] == '/'))
+//@         && !(i + 2 < len(n) && n[i + 1] == '.' && n[i + 2] == '.' && (i + 3 == len(n) || n[i + 3] == '/')))
+//@
 //@ func validGroupName
-//@   trusted
-//@   why group.go: a function of the name only (path.Clean fixpoint); examined under C19
+//@   safe
+//@   strext
 //@   pure
+//@   props C19 C12
+//@   modifies nothing
+//@   -- (the test for a path separator other than / and \ is dead code on the platforms where filepath.Separator is one of the two)
+//@   unreachable ret3
+//@   -- C19: accepted names are good names (empty, absolute, backslash, empty / "." / ".." components: all rejected) ...
+//@   ensures only-good: result ==> goodname(name)
+//@   -- ... and every good name is accepted (the validator is exactly the predicate)
+//@   ensures all-good: goodname(name) ==> result
+//@
 //@ func validUsername
 //@   safe
 //@   pure
